@@ -173,6 +173,78 @@ fn u_root_value_padding_overrun() {
     core::mem::forget(de);
 }
 
+/// C20/C01/C02 U-root-value-lossy: with `utf8_lossy` and invalid UTF-8 in the input the root Value
+/// is parsed from a `String::from_utf8_lossy` copy, which is longer than the input (U+FFFD per
+/// invalid sequence). Whatever end offset or error offset the DOM parser reports *in the copy*
+/// (the parser is cut to an arbitrary outcome), the reader is left - and the error located - at the
+/// corresponding offset of the caller's input, never beyond it (F16: offsets of the copy were
+/// used as they were; the next call panicked in Read::remain, errors pointed past the input).
+static mut PAD_FAIL: bool = false;
+fn cut_parse_with_padding_any(_v: &mut crate::Value, json: &[u8], _cfg: crate::config::DeserializeCfg) -> Result<usize> {
+    unsafe {
+        if PAD_FAIL {
+            Err(crate::error::verif_kani_error::syntax_cut(ErrorCode::InvalidJsonValue, json, PAD_END))
+        } else {
+            Ok(PAD_END)
+        }
+    }
+}
+
+/// Model of `String::from_utf8_lossy` for the one input of this harness (the std decoder's loops
+/// over a buffer do not fit; the mapping function under test walks the real `utf8_chunks`).
+fn model_from_utf8_lossy_of_text(v: &[u8]) -> std::borrow::Cow<'_, str> {
+    assert!(v.len() == 5 && v[1] == 0xff && v[2] == 0xe2 && v[3] == 0x82);
+    std::borrow::Cow::Borrowed("\"\u{FFFD}\u{FFFD}\"")
+}
+
+#[kani::proof]
+#[kani::unwind(12)]
+#[kani::stub(crate::error::Error::syntax, crate::error::verif_kani_error::syntax_cut)]
+#[kani::stub(alloc::string::String::from_utf8_lossy, model_from_utf8_lossy_of_text)]
+#[kani::stub(crate::value::node::Value::parse_with_padding, cut_parse_with_padding_any)]
+#[kani::stub(crate::value::node::Value::parse_without_padding, cut_parse_without_padding)]
+fn u_root_value_lossy_positions() {
+    // `"` ff (invalid, one byte) e2 82 (truncated sequence, two bytes) `"`; the copy has 1+3+3+1 bytes
+    let text: &'static [u8] = b"\"\xff\xe2\x82\"";
+    const COPY_LEN: usize = 8;
+    // offset in the copy -> [lowest, highest] acceptable offset in the input
+    const LO: [usize; 9] = [0, 1, 1, 1, 2, 2, 2, 4, 5];
+    const HI: [usize; 9] = [0, 1, 2, 2, 2, 4, 4, 4, 5];
+    let n: usize = kani::any();
+    let fail: bool = kani::any();
+    kani::assume(n >= 1 && n <= COPY_LEN + 3);
+    kani::assume(!fail || n <= COPY_LEN);
+    unsafe {
+        PAD_END = n;
+        PAD_FAIL = fail;
+    }
+    let mut de = Deserializer::new(crate::reader::verif_kani_reader::read_with_utf8_verdict(text, 1));
+    de.parser.cfg.utf8_lossy = true;
+    let r: Result<()> = de.deserialize_value(UnitProbe);
+    assert!(de.parser.read.index() <= text.len());
+    match &r {
+        Ok(()) => {
+            assert!(!fail && n <= COPY_LEN);
+            let i = de.parser.read.index();
+            assert!(LO[n] <= i && i <= HI[n]);
+        }
+        Err(e) => {
+            let i = crate::error::verif_kani_error::index_of(e);
+            assert!(i <= text.len());
+            if fail {
+                assert!(LO[n] <= i && i <= HI[n]);
+            } else {
+                assert!(n > COPY_LEN);
+            }
+        }
+    }
+    kani::cover!(r.is_ok() && n == COPY_LEN);
+    kani::cover!(fail && n == 7);
+    kani::cover!(!fail && n == COPY_LEN + 2);
+    core::mem::forget(r);
+    core::mem::forget(de);
+}
+
 // ---- models ------------------------------------------------------------------------------------
 
 fn model_skip_space<'de, R: Reader<'de>>(p: &mut Parser<R>) -> Option<u8> {
